@@ -191,6 +191,7 @@ class World:
         self.clock_us = 0
         self.ctz = None
         self.clock_positions = set()
+        self._shadow = {}
         warnings.simplefilter("ignore")
         self.reset({})
 
@@ -203,17 +204,43 @@ class World:
     def clock_dt(self):
         return EPOCH + _dt.timedelta(microseconds=self.clock_us)
 
+    # Registers are written by private name when the private representation is the known one (a
+    # str / WeekDay / tzinfo-or-None module global): that keeps the reference evaluation free of
+    # pendulum code.  If a refactoring renamed or re-typed a global (a ContextVar, a settings
+    # object ...), the public setter is used instead and the harness' own shadow copy answers reads -
+    # never a clobbered attribute, which would turn a harmless refactoring into an alarm.
+    _PRIV = {"locale": (pendulum, "_LOCALE", str), "week_start": (pendulum, "_WEEK_STARTS_AT", int),
+             "week_end": (pendulum, "_WEEK_ENDS_AT", int), "mock_tz": (_ltz, "_mock_local_timezone", (_dt.tzinfo, type(None)))}
+
+    def _known_repr(self, reg):
+        mod, name, typ = self._PRIV[reg]
+        return hasattr(mod, name) and isinstance(getattr(mod, name), typ)
+
     def set_reg(self, reg, val):
+        self._shadow[reg] = val
         if reg == "clock":
             self.set_clock(val)
         elif reg == "locale":
-            pendulum._LOCALE = val
+            if self._known_repr(reg):
+                pendulum._LOCALE = val
+            else:
+                pendulum.set_locale(val)
         elif reg == "week_start":
-            pendulum._WEEK_STARTS_AT = pendulum.WeekDay(val)
+            if self._known_repr(reg):
+                pendulum._WEEK_STARTS_AT = pendulum.WeekDay(val)
+            else:
+                pendulum.week_starts_at(pendulum.WeekDay(val))
         elif reg == "week_end":
-            pendulum._WEEK_ENDS_AT = pendulum.WeekDay(val)
+            if self._known_repr(reg):
+                pendulum._WEEK_ENDS_AT = pendulum.WeekDay(val)
+            else:
+                pendulum.week_ends_at(pendulum.WeekDay(val))
         elif reg == "mock_tz":
-            _ltz._mock_local_timezone = None if val is None else self.zone(val)
+            tz = None if val is None else self.zone(val)
+            if self._known_repr(reg):
+                _ltz._mock_local_timezone = tz
+            else:
+                pendulum.set_local_timezone(tz)
         elif reg == "cal_fwd":
             calendar.setfirstweekday(val)
         else:
@@ -222,6 +249,10 @@ class World:
     def get_reg(self, reg):
         if reg == "clock":
             return self.clock_us
+        if reg == "cal_fwd":
+            return calendar.firstweekday()
+        if reg in self._PRIV and not self._known_repr(reg):
+            return self._shadow.get(reg)
         if reg == "locale":
             return pendulum._LOCALE
         if reg == "week_start":
@@ -231,8 +262,6 @@ class World:
         if reg == "mock_tz":
             m = _ltz._mock_local_timezone
             return None if m is None else zone_key(m)
-        if reg == "cal_fwd":
-            return calendar.firstweekday()
         raise KeyError(reg)
 
     def regs(self):
@@ -293,10 +322,10 @@ class World:
     def reset(self, cfg):
         self.drop_caches()
         zone_history_reset()
-        pendulum._LOCALE = "en"
-        pendulum._WEEK_STARTS_AT = pendulum.WeekDay.MONDAY
-        pendulum._WEEK_ENDS_AT = pendulum.WeekDay.SUNDAY
-        _ltz._mock_local_timezone = None
+        self.set_reg("locale", "en")
+        self.set_reg("week_start", 0)
+        self.set_reg("week_end", 6)
+        self.set_reg("mock_tz", None)
         calendar.setfirstweekday(0)
         self.fs.load(cfg.get("fs"))
         self.fs.on_fire = None
